@@ -1339,8 +1339,15 @@ class Directed(object):
                 lit_order = list(pairs)
                 rnd.shuffle(lit_order)
                 lit = m.Array(it, d, dict(lit_order))
-                chain = m.Array(it, d)
-                for k, v in lit_order:
+                # the store chain: all N stores up to 33 entries, above that the literal with its last 3 entries stored
+                # (the Coq model re-sorts the array value at every store: a chain of N stores costs N^3)
+                if n <= 33:
+                    chain = m.Array(it, d)
+                    todo = lit_order
+                else:
+                    chain = m.Array(it, d, dict(lit_order[:-3]))
+                    todo = lit_order[-3:]
+                for k, v in todo:
                     chain = m.Store(chain, k, v)
                 outside = [mk(n), mk(n + 1)] if not (sname == "BV" and n >= 250) else [mk(n)]
                 out.append((sname, n, it, d, pairs, lit, chain, outside))
@@ -1358,6 +1365,21 @@ class Directed(object):
         for sname, n, it, d, pairs, lit, chain, outside in self.sized_arrays():
             byid = sorted(pairs, key=lambda kv: id(kv[0]))
             nv = m.Int(7)
+            if quick and sname != "Int" and n not in (8, 9, 16, 17, 32, 33, 100):
+                continue                     # (quick: every size over Int, the threshold neighbourhoods over BV / String)
+            if quick and n > 100:
+                # the largest size: Int indices only and the essential positions (one array value of 257 entries costs the
+                # Coq model about a second per case)
+                if sname != "Int":
+                    continue
+                k1, v1 = byid[-1]
+                k0, v0 = byid[0]
+                S_ = m.Store(lit, k1, nv)
+                out += [m.Equals(m.Select(lit, k1), v1), m.Equals(m.Select(lit, k0), v0), m.Equals(m.Select(lit, pairs[0][0]), pairs[0][1]),
+                        m.Equals(m.Select(lit, pairs[-1][0]), pairs[-1][1]), m.Equals(m.Select(lit, outside[0]), d),
+                        m.Equals(m.Select(chain, k1), v1), m.Equals(m.Select(S_, k1), nv), m.Equals(m.Select(S_, k0), v0),
+                        m.Equals(m.Select(m.Store(lit, outside[0], nv), k1), v1), m.Equals(lit, chain)]
+                continue
             every = (n <= 17 and (sname == "Int" or not quick))
             if every:
                 pick = pairs
@@ -1368,10 +1390,17 @@ class Directed(object):
             for k, v in pick:
                 out.append(m.Equals(m.Select(lit, k), v))
             if n:
-                out += [m.And([m.Equals(m.Select(lit, k), v) for k, v in pairs]), m.And([m.Equals(m.Select(chain, k), v) for k, v in pairs]),
-                        m.Equals(m.Select(chain, byid[-1][0]), byid[-1][1])]
+                out.append(m.Equals(m.Select(chain, byid[-1][0]), byid[-1][1]))
+            if 0 < n <= 33:
+                # (every index at once; the array occurs once per conjunct: kept to the sizes where that is cheap for
+                # the tree-shaped Coq terms and the oracle)
+                out += [m.And([m.Equals(m.Select(lit, k), v) for k, v in pairs]), m.And([m.Equals(m.Select(chain, k), v) for k, v in pairs])]
                 if sname == "Int":
                     out.append(m.Plus([m.Select(lit, k) for k, v in pairs] + [m.Int(0)]))
+            elif n:
+                extra = rnd.sample(pairs, 6 if quick else 24)
+                for k, v in extra:
+                    out.append(m.Equals(m.Select(lit, k), v))
             for k in outside[:1 if quick else 2]:
                 out += [m.Equals(m.Select(lit, k), d), m.Select(chain, k)]
             pos = ([byid[-1], byid[0], pairs[n // 2]] + ([] if quick else [pairs[0], pairs[-1]])) if n else []
